@@ -230,6 +230,9 @@ func (e *Engine) exec(fr *Frame, blk *ssa.BasicBlock, idx int, st *State, k func
 				e.jump(fr, blk, blk.Succs[1], st, k)
 				return
 			}
+			if e.regionMerge(fr, blk, st, cond, p, k) {
+				return
+			}
 			st2 := st.Clone()
 			st.Branch(cond)
 			st.Trace = append(st.Trace, p+":T")
@@ -717,6 +720,12 @@ func (e *Engine) loopsOf(fn *ssa.Function) map[*ssa.BasicBlock]*loopInfo {
 func (e *Engine) jump(fr *Frame, from, to *ssa.BasicBlock, st *State, k func(*State, []Value)) {
 	fdd := e.fd(st, fr)
 	fdd.Prev = from
+	if n := len(fdd.Stops); n > 0 && fdd.Stops[n-1].at == to {
+		sp := fdd.Stops[n-1]
+		fdd.Stops = fdd.Stops[:n-1]
+		sp.k(st, from)
+		return
+	}
 	if fr.loops == nil {
 		fr.loops = e.loopsOf(fr.Fn)
 	}
@@ -800,6 +809,14 @@ func (e *Engine) obligeNamed(st *State, fr *Frame, kind, label string, goal *smt
 	if st.Known[goal] || e.inPC(st, goal) {
 		e.Stats["obligations-known"]++
 		return
+	}
+	// cheap simplification under the literal facts of the path
+	if len(st.Lits) > 0 {
+		if g2 := e.C.Subst(goal, st.Lits); g2.IsTrue() {
+			e.Stats["obligations-by-literals"]++
+			st.Known[goal] = true
+			return
+		}
 	}
 	V := fr.V
 	if V == nil {
@@ -962,4 +979,269 @@ func (e *Engine) onlyLocalUse(a *ssa.Alloc) bool {
 		return true
 	}
 	return ok(a, 0)
+}
+
+// regionMerge generalises ifConvert to small acyclic regions of "simple" blocks
+// (no calls, no heap stores, no returns) that have a single exit block: every path
+// through the region is executed on a copy of the state, and the local cells and the
+// exit block's phi values are merged with ite. The heap cannot change inside such a
+// region, obligations raised inside it are emitted under the path condition of their
+// mini-path.
+func (e *Engine) regionMerge(fr *Frame, blk *ssa.BasicBlock, st *State, cond *smt.Term, pos string, k func(*State, []Value)) bool {
+	if st.PureDepth > 0 || fr.Pure {
+		return false
+	}
+	if fr.loops == nil {
+		fr.loops = e.loopsOf(fr.Fn)
+	}
+	simple := func(b *ssa.BasicBlock) bool {
+		if fr.loops[b] != nil {
+			return false
+		}
+		for _, in := range b.Instrs {
+			switch x := in.(type) {
+			case *ssa.DebugRef, *ssa.Jump, *ssa.If, *ssa.Convert, *ssa.ChangeType, *ssa.Phi, *ssa.FieldAddr, *ssa.Field, *ssa.Extract:
+			case *ssa.BinOp:
+				switch x.Op {
+				case token.QUO, token.REM:
+					return false
+				}
+			case *ssa.UnOp:
+				if x.Op == token.ARROW {
+					return false
+				}
+			case *ssa.Store, *ssa.IndexAddr:
+				// stores to cells, heap fields and slice elements: merged below
+			default:
+				return false
+			}
+		}
+		return true
+	}
+	inS := map[*ssa.BasicBlock]bool{}
+	var order []*ssa.BasicBlock
+	exits := map[*ssa.BasicBlock]bool{}
+	var walk func(b *ssa.BasicBlock)
+	walk = func(b *ssa.BasicBlock) {
+		if inS[b] || exits[b] {
+			return
+		}
+		if b == blk || !simple(b) || len(order) >= 12 {
+			exits[b] = true
+			return
+		}
+		// a block that can also be entered from outside the region is an exit
+		inS[b] = true
+		order = append(order, b)
+		for _, s := range b.Succs {
+			walk(s)
+		}
+	}
+	for _, s := range blk.Succs {
+		walk(s)
+	}
+	// blocks with predecessors outside region∪{blk} must be exits: iterate
+	for changed := true; changed; {
+		changed = false
+		for b := range inS {
+			for _, p := range b.Preds {
+				if p != blk && !inS[p] {
+					delete(inS, b)
+					exits[b] = true
+					changed = true
+					break
+				}
+			}
+		}
+	}
+	// recompute exits as successors of region blocks (and of blk) outside the region
+	ex := map[*ssa.BasicBlock]bool{}
+	for _, s := range blk.Succs {
+		if !inS[s] {
+			ex[s] = true
+		}
+	}
+	for b := range inS {
+		for _, s := range b.Succs {
+			if !inS[s] {
+				ex[s] = true
+			}
+		}
+	}
+	if len(ex) != 1 || len(inS) == 0 {
+		return false
+	}
+	var join *ssa.BasicBlock
+	for b := range ex {
+		join = b
+	}
+	if join == blk || fr.loops[join] != nil {
+		return false
+	}
+	for _, sp := range e.fd(st, fr).Stops {
+		if sp.at == join {
+			return false // the enclosing region ends at the same block: let it collect the paths
+		}
+	}
+	// every region block must be reachable only inside the region (checked above) and
+	// the region must be acyclic (no loop headers inside: checked in simple)
+	type outcome struct {
+		cond  *smt.Term
+		heap  map[string]*smt.Term
+		mem   map[string]*smt.Term
+		cells map[*Cell]Value
+		phis  []Value
+		facts []*smt.Term
+	}
+	var outs []outcome
+	var phis []*ssa.Phi
+	for _, in := range join.Instrs {
+		if ph, ok := in.(*ssa.Phi); ok {
+			phis = append(phis, ph)
+		}
+	}
+	base := len(st.PC)
+	runSide := func(succ *ssa.BasicBlock, c *smt.Term, tag string) {
+		st2 := st.Clone()
+		st2.Branch(c)
+		st2.Trace = append(st2.Trace, pos+":"+tag)
+		fdd := e.fd(st2, fr)
+		fdd.Stops = append(fdd.Stops, stopPoint{at: join, k: func(s3 *State, from *ssa.BasicBlock) {
+			var conds, facts []*smt.Term
+			for i := base; i < len(s3.PC); i++ {
+				if s3.IsBranch[i] {
+					conds = append(conds, s3.PC[i])
+				} else {
+					facts = append(facts, s3.PC[i])
+				}
+			}
+			o := outcome{cond: e.C.And(conds...), cells: s3.Cells, facts: facts, heap: s3.Heap, mem: s3.Mem}
+			for _, ph := range phis {
+				found := false
+				for j, p := range join.Preds {
+					if p == from {
+						o.phis = append(o.phis, e.val(fr, ph.Edges[j]))
+						found = true
+						break
+					}
+				}
+				if !found {
+					e.fail("region merge: phi without matching predecessor")
+				}
+			}
+			outs = append(outs, o)
+		}})
+		e.jump(fr, blk, succ, st2, func(*State, []Value) {
+			var bs []int
+			for b := range inS {
+				bs = append(bs, b.Index)
+			}
+			e.fail("region merge: return inside region (fn %s, if-block %d, region %v, join %d)", fr.Fn, blk.Index, bs, join.Index)
+		})
+	}
+	runSide(blk.Succs[0], cond, "T")
+	runSide(blk.Succs[1], e.C.Not(cond), "F")
+	if len(outs) == 0 {
+		return true // every mini-path ended (panic): nothing continues
+	}
+	// merge cells
+	changed := map[*Cell]bool{}
+	for _, o := range outs {
+		for cell, nv := range o.cells {
+			if ov, ok := st.Cells[cell]; !ok || ov != nv {
+				changed[cell] = true
+			}
+		}
+	}
+	for cell := range changed {
+		var acc Value
+		for i := len(outs) - 1; i >= 0; i-- {
+			v, ok := outs[i].cells[cell]
+			if !ok {
+				if ov, ok2 := st.Cells[cell]; ok2 {
+					v = ov
+				} else {
+					v = e.zero(cell.T)
+				}
+			}
+			if acc == nil {
+				acc = v
+			} else {
+				acc = e.iteVal(outs[i].cond, v, acc)
+			}
+		}
+		st.Cells[cell] = acc
+	}
+	// merge heap and memory arrays
+	mergeArr := func(get func(o outcome) map[string]*smt.Term, base map[string]*smt.Term, mk func(key string, like *smt.Term) *smt.Term) {
+		keys := map[string]bool{}
+		for _, o := range outs {
+			for key, a := range get(o) {
+				if b, ok := base[key]; !ok || b != a {
+					keys[key] = true
+				}
+			}
+		}
+		for key := range keys {
+			var acc *smt.Term
+			for i := len(outs) - 1; i >= 0; i-- {
+				a, ok := get(outs[i])[key]
+				if !ok {
+					if b, ok2 := base[key]; ok2 {
+						a = b
+					} else {
+						// first materialised inside a mini-path: its initial symbol
+						for _, o2 := range outs {
+							if x, ok3 := get(o2)[key]; ok3 {
+								a = mk(key, x)
+								break
+							}
+						}
+					}
+				}
+				if acc == nil {
+					acc = a
+				} else {
+					acc = e.C.Ite(outs[i].cond, a, acc)
+				}
+			}
+			base[key] = acc
+		}
+	}
+	mergeArr(func(o outcome) map[string]*smt.Term { return o.heap }, st.Heap, func(key string, like *smt.Term) *smt.Term {
+		return e.C.Var("heap$"+key, like.Sort)
+	})
+	mergeArr(func(o outcome) map[string]*smt.Term { return o.mem }, st.Mem, func(key string, like *smt.Term) *smt.Term {
+		return e.C.Var("mem$"+key, like.Sort)
+	})
+	for pi, ph := range phis {
+		var acc Value
+		for i := len(outs) - 1; i >= 0; i-- {
+			if acc == nil {
+				acc = outs[i].phis[pi]
+			} else {
+				acc = e.iteVal(outs[i].cond, outs[i].phis[pi], acc)
+			}
+		}
+		fr.Vals[ph] = acc
+	}
+	for _, o := range outs {
+		for _, f := range o.facts {
+			if !f.HasBound() {
+				st.Assume(e.C.Implies(o.cond, f))
+			}
+		}
+	}
+	// the disjunction of the mini-path conditions holds (paths that ended in a panic
+	// obligation are excluded from it)
+	var ds []*smt.Term
+	for _, o := range outs {
+		ds = append(ds, o.cond)
+	}
+	st.Assume(e.C.Or(ds...))
+	e.Stats["region-merges"]++
+	fdd := e.fd(st, fr)
+	fdd.Prev = nil
+	e.exec(fr, join, len(phis), st, k)
+	return true
 }
